@@ -111,6 +111,11 @@ def run_config(ctx, r, idx):
 		if not check_ports(ctx, aw, bind, plan, w):
 			return
 		bench = radio.Bench.from_app(aw)
+		if bench.orphans:
+			ctx.violation("wiring", dict(w, children = bench.orphans),
+				what = "child transceiver(s) %s are attached to their parent but missing from the application's transceiver list "
+					"(they get no clock ticks and no bursts)" % ", ".join(bench.orphans))
+			return
 		if not model_from_plan(ctx, bench, plan, w):
 			return
 		_run(ctx, r, idx, aw, bench, w)
